@@ -1,4 +1,4 @@
-import PallasVerif.Proofs.SchemaBlock
+import PallasVerif.Proofs.SchemaIsoMain
 import PallasVerif.Gen.SchemaEra
 /-!
 # C06 — Era ledger codecs are isomorphic on chain data and round-trip all values
@@ -212,6 +212,54 @@ example :
     let S := blockSchema .any .any .any .any
     let it := mkArray ([mkUInt 7, Item.seqIndef 4 [mkUInt 1], mkArray [], mkMapFlat (flattenPairs (auxPairs [(0, mkUInt 9)]))] ++ invItems (some [0]))
     ((dec env 10 S it).bind (enc env 10 S)).map Item.encode = some it.encode := by
+  decide +kernel
+
+/-! ## C06, chain half for every translated type: canonical items re-encode to themselves -/
+
+/-- the hand-modelled Conway `CostModels` codec declares no item canonical (it only occurs under
+    `KeepRaw` in blocks and transactions), so the contract is vacuous for it -/
+theorem customs_iso : CustomsIso env := by
+  intro i c hi it hcn
+  cases i with
+  | zero =>
+    simp [env, Hand.customs] at hi
+    subst hi
+    simp [Hand.costModelsCustom] at hcn
+  | succ i => simp [env, Hand.customs] at hi
+
+/-- **C06, chain half, every type** (Byron `Block` / `EbBlock` included, through the hand-written sums
+    and wrappers): an item that is canonical for the schema (`Model/SchemaCanon.lean`: minimal heads,
+    definite containers where the Rust type does not keep the form, entries in field / key order, no
+    surplus elements, `null` exactly where the encoder writes it; anything under `KeepRaw`) and
+    that the typed decoder accepts is re-encoded to exactly itself.  `canon` is decidable and is
+    evaluated on every artefact of the corpus by the check (evidence: `chain_canonical`). -/
+theorem C06_chain_iso_partial : ∀ p, p ∈ table → ∀ fuel it v,
+    canon env fuel p.2 it = true → dec env fuel p.2 it = some v → enc env fuel p.2 v = some it := by
+  intro p hp fuel it v hcn hd
+  have h := table_ok
+  rw [List.all_eq_true] at h
+  exact canon_iso env env_valid customs_iso fuel p.2 okFuel it (h p hp) hcn v hd
+
+/-- the same on bytes: the decoder accepts a prefix of `bs`, that prefix is canonical, and
+    re-encoding the decoded value gives exactly that prefix -/
+theorem C06_chain_iso_bytes_partial : ∀ p, p ∈ table → ∀ fuel bs it rest v,
+    parseItem bs = some (it, rest) → canon env fuel p.2 it = true →
+    decodeBytes env fuel p.2 bs = some (v, rest) →
+    ∃ pre, bs = pre ++ rest ∧ encodeBytes env fuel p.2 v = some pre := by
+  intro p hp fuel bs it rest v hpi hcn hd
+  simp only [decodeBytes, hpi, Option.map_eq_some_iff, Prod.mk.injEq] at hd
+  obtain ⟨x, hx, rfl, _⟩ := hd
+  obtain ⟨hb, _⟩ := parseItem_sound bs it rest hpi
+  exact ⟨it.encode, hb, by simp [encodeBytes, C06_chain_iso_partial p hp fuel it x hcn hx]⟩
+
+/-- the Byron block types are among them -/
+example : (table.lookup "byron.Block").isSome = true ∧ (table.lookup "byron.EbBlock").isSome = true := by
+  constructor <;> decide +kernel
+
+/-- non-vacuity: a canonical `Relay` item, and a non-canonical one (non-minimal port) that decodes
+    to the same value but is not reproduced -/
+example : canon env 50 crate_Relay (mkArray [mkUInt 1, mkUInt 3001, mkText [0x61]]) = true := by decide +kernel
+example : canon env 50 crate_Relay (mkArray [mkUInt 1, .atom ⟨0, 26, [0, 0, 0x0b, 0xb9]⟩, mkText [0x61]]) = false := by
   decide +kernel
 
 /-! ## non-vacuity: concrete layouts the generated schemas produce -/
